@@ -912,11 +912,12 @@ func (g *schemaGenerator) generateAllOfType(allOf []*schemas.Type, scope nameSco
 			return nil, cycleErr
 		}
 
-		defer cleanupCycle()
-
 		if ic {
+			// The mark belongs to the frame that set it; that frame removes it.
 			return codegen.EmptyInterfaceType{}, nil
 		}
+
+		defer cleanupCycle()
 	}
 
 	rAllOf, err := g.resolveRefs(allOf)
